@@ -164,6 +164,41 @@ def semCat (inst : NsCtx) : Sem where
     | some ty => (skipDecode ty a.toList).pyEq (skipDecode ty b.toList)
     | none => a == b
 
+/-! ### the two variants of the fixed-value test (finding C03-F3 / its repair) -/
+
+/-- `get_extended_qname(qname, namespaces)` (utils/qnames.py:124-154): the expanded name as TEXT
+    (`{uri}local`), or the literal itself when it cannot be resolved -/
+def extQ (c : NsCtx) (t : Str) : Str :=
+  if c.isEmpty then t
+  else if t.isEmpty then t
+  else if t.head? == some '{' then t
+  else
+    match splitColon t with           -- `qname.split(':', 1)`
+    | (_, none) =>
+      match c.find [] with
+      | some d => if d.isEmpty then t else '{' :: d.toList ++ '}' :: t
+      | none => t
+    | (p, some name) =>
+      match c.find p with
+      | some uri => if uri.isEmpty then name else '{' :: uri.toList ++ '}' :: name
+      | none => t
+
+/-- the catalogue types whose value space depends on the namespace context (`type.is_qname()`), when the tree
+    under test has the repair; no type before it -/
+def qStrict (byValue : Bool) : Nat → Bool := fun t => byValue && t == CatTy.qname.toIdx
+
+/-- the catalogue semantics in both variants.  `byValue = false`: the code before the repair (`semCat`).
+    `byValue = true`: `XsdAttribute._is_fixed_value` compares xs:QName values as expanded names, the instance
+    literal resolved with `inst` (context.namespaces), the fixed literal with `schema` (schema.namespaces). -/
+def semCatV (byValue : Bool) (inst schema : NsCtx) : Sem where
+  validT t x := match CatTy.ofIdx t with | some ty => validLex inst ty x.toList | none => false
+  valueEq t a b :=
+    match CatTy.ofIdx t with
+    | some ty =>
+      if byValue && ty == .qname then extQ inst (coll a.toList) == extQ schema (coll b.toList)
+      else (skipDecode ty a.toList).pyEq (skipDecode ty b.toList)
+    | none => a == b
+
 /-! ### the decoded value (attributes.py:273-294 on a default DecodeContext) -/
 
 /-- what the converter receives for one item -/
@@ -195,5 +230,11 @@ def decodedVal (c : NsCtx) : CatTy → Str → DV
   | .boolean, s => match boolOf (coll s) with | some b => .bool b | none => .none
   | .qname, s => .str (qnameDecoded c s)
   | .intList, s => .list ((words isXmlWs (coll s)).map parseInt)
+
+/-- the value of an INJECTED value constraint: with the repair a context-dependent literal is decoded in skip
+    mode (`to_python = str` on the collapsed text, no resolution) -/
+def injectedVal (byValue : Bool) (c : NsCtx) : CatTy → Str → DV
+  | .qname, s => if byValue then .str (coll s) else decodedVal c .qname s
+  | ty, s => decodedVal c ty s
 
 end XsVerif.AttrTypes
